@@ -113,6 +113,9 @@ class C11(scen.WorldProp):
             if i % 10 == 7:
                 yield self.after_interrupted(rng, tier)
                 continue
+            if i % 10 == 3:
+                yield self.spawned_solo(rng)
+                continue
             N = rng.randint(4, 16)
             m, s = speed_strings(rng)
             if rng.random() < 0.08:
@@ -138,7 +141,26 @@ class C11(scen.WorldProp):
                                             peal_speed=ps, gap=g)}
             yield {"k": "world", "scenario": sc, "t0": t0, "speed_text": s}
 
+    def spawned_solo(self, rng):
+        """Spawned by Ringing Room with --look-to-time (Look To was called a moment before Wheatley existed), every
+        bell Wheatley's: the law holds from *that* time, whatever the clock's origin."""
+        from harness.props.c19 import method_msg
+        N = rng.choice([4, 6, 8, 12])
+        origin = rng.choice([1000.0, 1.0e6, 946684800.0, 1.7e9, 1.8e9])
+        t_lt = origin - rng.uniform(0.0, 2.0)
+        I = scen.interval(180, N)
+        rows = rng.randint(4, 12)
+        sc = {"start": origin, "end": t_lt + 3 + I * scen.blow_index(N, 1.0, rows, 0) + 0.5 * I, "tower_size": N,
+              "events": [], "on_join": scen.humans_on_join([], "Wheatley", list(range(1, 17))) + [method_msg(N)],
+              "look_to_time": scen.f2b(t_lt),
+              "bot": scen.bot_cfg({"type": "placeholder"}, up_down_in=True, stop_at_rounds=False, user_name="Wheatley",
+                                  server_id=rng.randint(1, 9)),
+              "rhythm": scen.rhythm_cfg("wait", inertia=1.0, peal_speed=180, gap=1.0)}
+        return {"k": "world", "scenario": sc, "t0": t_lt, "speed_text": None, "spawned": True}
+
     def to_model(self, req):
+        if req.get("spawned"):
+            return super().to_model(req)
         world = super().to_model(req)
         sc = req["scenario"]
         rh = sc["rhythm"]
@@ -151,6 +173,8 @@ class C11(scen.WorldProp):
     def compare(self, req, ir, mr):
         if "driver_error" in mr:
             return "driver_error: " + mr["driver_error"]
+        if req.get("spawned"):
+            return super().compare(req, ir, mr)
         world, solo = mr["replies"]
         d = super().compare(req, ir, world)
         if d:
